@@ -2,7 +2,7 @@
    Model: Model/C14_Flow.v (dataflow), Model/C14_Interact.v (_dist_sample); spec: Spec/C14_Fold.v. *)
 From Coq Require Import List String Bool.
 Import ListNotations.
-From TD Require Import Model.C14_Flow Model.C14_Interact Spec.C14_Fold Proofs.C14_FlowP Proofs.C14_InteractP.
+From TD Require Import Model.C14_Flow Model.C14_Interact Spec.C14_Fold Proofs.C14_FlowP Proofs.C14_SliceP Proofs.C14_InteractP.
 
 (* ---- seq_is_fold: for EVERY module graph whose inner modules write in place (the top module may have any inplace
    mode, select_out_keys, tensordict_out), every environment: the module returns, and each advertised out key holds
@@ -81,6 +81,66 @@ Theorem C14_module_footprint_partial : forall U n x o, hdinj U -> nosel n = true
 Proof. exact footprint_partial. Qed.
 Print Assumptions C14_module_footprint_partial.
 
+(* ---- subsequence_sound, full statement: for every module graph (any nesting), every key set S, every environment:
+   the sequence returned by select_subsequence(out_keys=S) computes the SAME TERMS for S *)
+Definition C14_subsequence_sound_full_statement : Prop :=
+  forall n S n', regular n = true -> no_sink_in n = true ->
+  select_sub (depth n + 1) n None (Some S) = SOk n' ->
+  forall e e', spec_run (leaves n) e = Some e' ->
+    exists e'', spec_run (leaves n') e = Some e'' /\ forall k, List.In k S -> e'' k = e' k.
+(* false today (D144): a ModuleDict-based nested sequence that contains a sequence is dropped without a word *)
+Theorem C14_subsequence_sound_refuted :
+  exists n S n' e e', regular n = true /\ no_sink_in n = true /\ has_outs n = true
+    /\ select_sub (depth n + 1) n None (Some S) = SOk n'
+    /\ spec_run (leaves n) e = Some e'
+    /\ exists k e'', List.In k S /\ spec_run (leaves n') e = Some e'' /\ e'' k <> e' k.
+Proof. exact subsequence_sound_refuted. Qed.
+Print Assumptions C14_subsequence_sound_refuted.
+(* on the complement (no ModuleDict-based sequence; every module has at least one out key): ALL graphs, ALL S, ALL
+   environments — forward pass, backward pass, recursive slicing of nested sequences; the slice is again a chain of
+   in-place modules, so C14_inner_is_fold / C14_in_keys_sufficient apply to it (it runs on its own in_keys) *)
+Theorem C14_subsequence_sound_partial : forall n S n',
+  regular n = true -> no_sink_in n = true -> has_outs n = true -> nodict n = true ->
+  select_sub (depth n + 1) n None (Some S) = SOk n' ->
+  regular n' = true /\ no_sink_in n' = true
+  /\ forall e e', spec_run (leaves n) e = Some e' ->
+       exists e'', spec_run (leaves n') e = Some e'' /\ forall k, List.In k S -> e'' k = e' k.
+Proof. exact subsequence_sound_partial. Qed.
+Print Assumptions C14_subsequence_sound_partial.
+(* the backward pass alone, for ANY recursive slicer that is sound on the nested sequences (the induction step) *)
+Theorem C14_backward_pass_sound : forall rec ms,
+  Forall good ms ->
+  (forall m, List.In m ms -> forall S m', rec m None (Some S) = SOk m' -> good m' /\ sound m m' S) ->
+  forall need kept nr, bpass rec ms need = Some (Some (kept, nr)) ->
+    Forall good kept
+    /\ (forall k, List.In k need -> List.In k nr)
+    /\ (forall (L : key -> Prop), (forall k, L k -> List.In k need) -> forall k, live (flat_map leaves kept) L k -> List.In k nr)
+    /\ (forall (L : key -> Prop), (forall k, L k -> List.In k need) ->
+        forall e1 e2 e1', agree (live (flat_map leaves kept) L) e1 e2 -> spec_run (flat_map leaves ms) e1 = Some e1' ->
+          exists e2', spec_run (flat_map leaves kept) e2 = Some e2' /\ agree L e1' e2').
+Proof. exact bpass_sound. Qed.
+Print Assumptions C14_backward_pass_sound.
+(* the advertised in_keys cover every key that is live before the module *)
+Theorem C14_in_keys_cover_live : forall n, regular n = true -> no_sink_in n = true -> covers n.
+Proof. exact covers_node. Qed.
+Print Assumptions C14_in_keys_cover_live.
+(* in_keys selection: stated for every subset, proved for the subsets that cover the sequence's own in_keys (nothing is
+   dropped); the general statement (kept modules run on a tensordict holding exactly I) is checked on every subset of
+   the key universe by the harness only *)
+Definition C14_forward_slice_executable_full_statement : Prop :=
+  forall n I S n', regular n = true -> no_sink_in n = true ->
+  select_sub (depth n + 1) n (Some I) S = SOk n' ->
+  forall k, List.In k (in_keys n') -> List.In k I.
+Theorem C14_forward_slice_partial : forall f m, props f m -> forall I S,
+    (forall I', I = Some I' -> forall k, List.In k (in_keys m) -> List.In k I') ->
+    (forall S', S = Some S' -> forall k, List.In k (out_keys m) -> List.In k S') ->
+    select_sub f m I S = SOk (rebuild m) /\ leaves (rebuild m) = leaves m /\ io (rebuild m) = io m.
+Proof.
+  intros f m P I S HI HS. split; [now apply keepall_all|]. split; [apply leaves_rebuild|].
+  apply io_rebuild. now destruct P.
+Qed.
+Print Assumptions C14_forward_slice_partial.
+
 (* ---- interact_table: over InteractionType x everything the distribution object can answer, _dist_sample consults
    exactly what the documented contract says — full statement *)
 Definition C14_interact_table_full_statement : Prop := forall it d, dist_sample it d = spec_sample it d.
@@ -116,3 +176,10 @@ Qed.
 Example C14_ex_last_writer : exists e', spec_run [mk 1 [ka] [kb]; mk 2 [kb] [kb; kb]] (env_of [(ka, In ka)]) = Some e'
   /\ e' kb = Some (App 2 1 [App 1 0 [In ka]]).
 Proof. eexists. split; reflexivity. Qed.
+
+Definition ex_chain : node :=
+  Seq dcfg [Leaf (mk 1 [ka] [kb]); Seq dcfg [Leaf (mk 2 [kb] [kc]); Leaf (mk 3 [ka] [kb])]; Leaf (mk 4 [kc] [knx])].
+Example C14_ex_slice : regular ex_chain = true /\ no_sink_in ex_chain = true /\ has_outs ex_chain = true /\ nodict ex_chain = true
+  /\ select_sub (depth ex_chain + 1) ex_chain None (Some [kc])
+     = SOk (Seq dcfg [Leaf (mk 1 [ka] [kb]); Seq dcfg [Leaf (mk 2 [kb] [kc])]]).
+Proof. repeat split. Qed.
